@@ -314,7 +314,19 @@ func setNameFromKey(dict map[string]any) error {
 	return nil
 }
 
+// isTrue reads a boolean attribute that may still be a string (interpolation skipped: the cast table has not
+// run and the decode-time conversion comes later) the way toBoolean will convert it.
 func isTrue(x any) bool {
+	switch v := x.(type) {
+	case bool:
+		return v
+	case string:
+		switch strings.ToLower(v) {
+		case "true", "y", "yes", "on":
+			return true
+		}
+		return false
+	}
 	parseBool, _ := strconv.ParseBool(fmt.Sprint(x))
 	return parseBool
 }
